@@ -3,7 +3,9 @@ import Driver.Util
 /-
 Line protocol for C02 (stream energy balance; `Float` instance of the model).
 
-  mix  r=<st> rp=<chars> ins=<inlet>;… Q=<f> cp=<0|1> kind=H sol=<sol>;…
+  mix  r=<st> rp=<chars> ins=<inlet>;… Q=<f> cp=<0|1> [eb=<0|1> vle=<0|1> vres=<ok:<T>:<chars>|ex|->] kind=H sol=<sol>;…
+       (eb: energy_balance, default 1; vle default 0; vres: what the recorded `stream.vle(...)` call left — the
+        temperature and the phases holding material — or that it raised; `-` when it was not called)
   set  r=<st> x=<f> kind=<H|h|S|Sg> sol=…
   sep  r=<st> Hs=<f> Ho=<f> none=<0|1> oe=<other empty 0|1> same=<0|1> ea=<empty afterwards 0|1> kind=H sol=…
 
@@ -17,7 +19,7 @@ Line protocol for C02 (stream energy balance; `Float` instance of the model).
             with the real property function, and dX/dT at T (C for H, C/T for S); `ex` = it raised.
   <f>     = a float as `b<ieee bits>` (decimals accepted)
 
-Answer:
+Answer (a `mix` line additionally ends with ` vs=<H:<f>:<P> | T:<f>:<P> | ->`, the flash specification):
   out=<ok|raised> tag=<branch> ph=<ph> T=<f> P=<f> e=<0|1> H=<f> calls=<n> q=<ph,…|-> hyp=<ok|resid@i|slope@i|missing@i>
 
 `H` is what the property says the receiver's enthalpy (entropy) is: the assigned value, the
@@ -125,7 +127,7 @@ def monitor (calls : List Call) (n : Nat) (target : Float) (rtol : Float) : Stri
 
 def tagStr : Tag → String
   | .n0 => "n0" | .n1 => "n1" | .n1q => "n1q" | .n2 => "n2" | .n2cp => "n2cp" | .n2fb => "n2fb"
-  | .sepNone => "sepNone" | .sep => "sep"
+  | .sepNone => "sepNone" | .sep => "sep" | .n1m => "n1m" | .n2m => "n2m" | .n2vle => "n2vle"
 
 def outStr : Outcome → String
   | .ok => "ok" | .raised => "raised"
@@ -151,13 +153,29 @@ def stepMix (toks : List String) : Option String := do
   let cp ← (kv toks "cp") >>= parseBool?
   let kind ← kv toks "kind"
   let calls ← (kv toks "sol") >>= parseList? parseCall?
-  let o := mixFrom (solverOf calls) r rp ins Q cp
+  let eb := ((kv toks "eb") >>= parseBool?).getD true
+  let vle := ((kv toks "vle") >>= parseBool?).getD false
+  let vres ← match kv toks "vres" with
+    | none => some none
+    | some "-" => some none
+    | some "ex" => some none
+    | some v => match splitOn1 v ':' with
+      | ["ok", T, cs] => do
+        let T ← parseFloat? T
+        let cs ← parseChars? cs
+        pure (some (⟨T, cs⟩ : VleRes Float))
+      | _ => none
+  let o := mixFromX (solverOf calls) (fun _ => vres) r rp ins Q cp eb vle
+  let vs := match vleSpecX r ins Q eb vle with
+    | none => "-"
+    | some (.HP H P) => s!"H:{showFloat H}:{showFloat P}"
+    | some (.TP T P) => s!"T:{showFloat T}:{showFloat P}"
   -- the enthalpy the property promises: the assigned one; the lone inlet's; 0 for an emptied receiver
   let H : Float := match o.target, feeds ins with
     | some h, _ => h
     | none, [f] => f.H
     | none, _ => 0.0
-  pure (answer o H calls H kind)
+  pure (answer o H calls H kind ++ s!" vs={vs}")
 
 def stepSet (toks : List String) : Option String := do
   let r ← (kv toks "r") >>= parseSt?
